@@ -8,6 +8,20 @@ decisive; it returns (output, hits, tags).
 from . import seqlib as S
 
 
+_FALSY = [0]     # set per case by run(): 0 truthy, 1 `__bool__` -> False, 2 `__len__` -> 0
+
+
+def _Base():
+    """HasTraits, or a HasTraits subclass whose instances are alive but falsy: nothing in C19 depends on an
+    object's truth value (a share of the cases runs on such classes)."""
+    from traits.api import HasTraits
+    if _FALSY[0] == 1:
+        return type("FalsyB", (HasTraits,), {"__bool__": lambda self: False})
+    if _FALSY[0] == 2:
+        return type("FalsyL", (HasTraits,), {"__len__": lambda self: 0})
+    return HasTraits
+
+
 def _hit(sig, what, **kw):
     d = {"signature": sig, "what": what}
     d.update(kw)
@@ -76,7 +90,7 @@ def _validator_classes(fault):
                 return value
             self.error(obj, name, value)
 
-    class A(HasTraits):
+    class A(_Base()):
         e = Even()
         n = Neg()
         en = Either(Even(), Neg())
@@ -188,7 +202,7 @@ def run_default(c):
         fault.tick()
         return Box()
 
-    class D(HasTraits):
+    class D(_Base()):
         x = Int
         ys = List(Int)
         b = Instance(Box, factory=factory)
@@ -289,7 +303,7 @@ def run_property(c):
     fault = Fault()
     calls = [0]
 
-    class P(HasTraits):
+    class P(_Base()):
         a = Int(1)
         store = Int(0)
         p = Property(Int, observe="a")
@@ -437,10 +451,10 @@ def run_adapter_trait(c):
     class IP(Interface):
         pass
 
-    class Doc(HasTraits):
+    class Doc(_Base()):
         pass
 
-    class Adapted(HasTraits):
+    class Adapted(_Base()):
         pass
     IP.register(Adapted)
 
@@ -505,7 +519,7 @@ def run_property_notify(c):
     def scenario(fail_at):
         calls = [0]
 
-        class M(HasTraits):
+        class M(_Base()):
             a = Int(1)
             double = Property(Int, **kw)
 
@@ -567,7 +581,7 @@ def run_handler(c):
     fault = Fault()
     calls = []
 
-    class H(HasTraits):
+    class H(_Base()):
         x = Int(0)
         y = Int(0)
 
@@ -641,7 +655,7 @@ def run_observe_filter(c):
     fault = Fault()
     calls = []
 
-    class O(HasTraits):
+    class O(_Base()):
         a = Int(0)
         b = Int(0)
         c = Int(0)
@@ -712,17 +726,17 @@ def run_legacy_chain(c):
     fault = Fault()
     calls = []
 
-    class Pet(HasTraits):
+    class Pet(_Base()):
         name = Str("p")
 
-    class Child(HasTraits):
+    class Child(_Base()):
         pet = Instance(Pet)
 
         def _pet_default(self):
             fault.tick()
             return Pet()
 
-    class Root(HasTraits):
+    class Root(_Base()):
         child = Instance(Child)
 
     def handler(obj, name, old, new):
@@ -791,9 +805,16 @@ RUNNERS = {"observe-filter": run_observe_filter, "legacy-chain": run_legacy_chai
 
 def run(c):
     import warnings
+    import json
+    import zlib
+    _FALSY[0] = zlib.crc32(json.dumps(c, sort_keys=True).encode()) % 4 if c.get("falsy", 1) else 0
+    _FALSY[0] = _FALSY[0] if _FALSY[0] in (1, 2) else 0
     with warnings.catch_warnings():
         warnings.simplefilter("ignore")
-        return RUNNERS[c["scalar"]](c)
+        out, hits, tags = RUNNERS[c["scalar"]](c)
+    tags = set(tags)
+    tags.add("objects:" + ["truthy", "falsy-bool", "falsy-len"][_FALSY[0]])
+    return out, hits, tags
 
 
 def generate(rng, n, excs):
